@@ -509,6 +509,10 @@ def grammar_pool(rng, n_random, usize=True, names="plain", max_nt=4, max_t=4, ma
             items = gen.layered_grammar(rng)
             out.append((f"layered{k}", items, gen.render(items), gen.to_oracle(items)))
             continue
+        if k % 16 == 10:
+            items = gen.wave_grammar(rng)
+            out.append((f"wave{k}", items, gen.render(items), gen.to_oracle(items)))
+            continue
         if k % 8 == 2:
             items = gen.sequence_grammar(rng)
             out.append((f"sequence{k}", items, gen.render(items), gen.to_oracle(items)))
